@@ -36,9 +36,15 @@ def run_probe(obj, probe):
         _CATALOGUE = {e.name: e for e in cat.catalogue()}
     entry = _CATALOGUE[probe["entry"]]
     ad = rp.ADAPTERS[entry.adapter](entry, probe["grammar"], None)
-    if entry.adapter == "disc":
-        cat.bind_from_defaults(entry, obj)
-    return ad.execute(obj, probe["x"])
+    for k, v in probe["binding"].items():
+        setattr(entry, k, v)
+    # execute at every requested point <<x, default>>: at least one of them is not in the cache that came along
+    out = []
+    for x, v in probe["points"]:
+        if entry.pname is not None:
+            ad.set_default(obj, v)
+        out.append(ad.execute(obj, x))
+    return out
 
 
 def main():
@@ -71,7 +77,7 @@ def main():
             ans = {"class": type(obj).__name__}
             probe = req.get("probe")
             if probe is not None:
-                # run execute(x) in THIS process on a second restored instance and report what it returned
+                # run the executions in THIS process on a second restored instance and report what they returned
                 ans["probe"] = run_probe(pickle.loads(req["blob"]), probe)
             ans["blob"] = pickle.dumps(obj)
         except BaseException as ex:  # noqa: BLE001
